@@ -227,4 +227,51 @@ theorem new_eq : ∀ (key : Bytes) (h : 8 ≤ key.length),
     rw [new_cons k0 k1 k2 k3 k4 k5 k6 k7 rest (by simp)]
     simp only [List.take_succ_cons, List.take_zero]
 
+/-! ## the tables in the source are the digits of π (T1: re-proved on every run) -/
+
+open Physis.Spec.Blowfish (piWords piWordsStormer piTableWords piSlice vecOfList stdTables) in
+section
+set_option maxRecDepth 100000 in
+theorem tables_are_pi :
+    blowfishP.toList ++ blowfishS0.toList ++ blowfishS1.toList ++ blowfishS2.toList ++ blowfishS3.toList
+      = piWords 1042 := by
+  decide +kernel
+
+theorem slice_of_append (a b c : List UInt32) (off n : Nat) (ha : a.length = off) (hb : b.length = n) :
+    ((a ++ b ++ c).drop off).take n = b := by
+  subst ha hb; simp
+
+theorem piSlice_toList (off n h) : (piSlice off n h).toList = (piTableWords.drop off).take n := by
+  simp [piSlice, vecOfList]
+
+theorem initial_eq : toSpec initial = stdTables := by
+  have H := tables_are_pi
+  have hp : blowfishP = piSlice 0 18 (by decide) := by
+    apply Vector.toList_inj.mp
+    rw [piSlice_toList, piTableWords, ← H]
+    simp [List.append_assoc]
+  have h0 : blowfishS0 = piSlice 18 256 (by decide) := by
+    apply Vector.toList_inj.mp
+    rw [piSlice_toList, piTableWords, ← H]
+    simp [List.append_assoc]
+  have h1 : blowfishS1 = piSlice 274 256 (by decide) := by
+    apply Vector.toList_inj.mp
+    rw [piSlice_toList, piTableWords, ← H]
+    simpa [List.append_assoc] using (slice_of_append (blowfishP.toList ++ blowfishS0.toList) blowfishS1.toList _ 274 256 (by simp) (by simp)).symm
+  have h2 : blowfishS2 = piSlice 530 256 (by decide) := by
+    apply Vector.toList_inj.mp
+    rw [piSlice_toList, piTableWords, ← H]
+    simpa [List.append_assoc] using (slice_of_append (blowfishP.toList ++ blowfishS0.toList ++ blowfishS1.toList) blowfishS2.toList _ 530 256 (by simp) (by simp)).symm
+  have h3 : blowfishS3 = piSlice 786 256 (by decide) := by
+    apply Vector.toList_inj.mp
+    rw [piSlice_toList, piTableWords, ← H]
+    simpa [List.append_assoc] using (slice_of_append (blowfishP.toList ++ blowfishS0.toList ++ blowfishS1.toList ++ blowfishS2.toList) blowfishS3.toList [] 786 256 (by simp) (by simp)).symm
+  simp only [toSpec, initial, stdTables, blowfishS, ← hp, ← h0, ← h1, ← h2, ← h3]
+end
+
+/-- `Blowfish::new(key)` for a key of at least 8 bytes: the standard Blowfish subkeys of its first 8 bytes -/
+theorem new_standard (key : Bytes) (h : 8 ≤ key.length) :
+    new key = some (ofSpec (Spec.Blowfish.subkeys (key.take 8) (by simp only [List.length_take]; omega))) := by
+  rw [new_eq key h, initial_eq]; rfl
+
 end Physis.Blowfish
